@@ -16,6 +16,8 @@ HasAccessibles.__init_subclass__ machinery, so that programs (C09) and configura
                    ['N']                                                            None (removes the accessible)
                    ['C', {'argument': spec|None, 'result': spec|None, properties}, impl]   Command(...)(function)
                    ['CO', {properties}]                                             Command(optional=True, ...) without function
+                   ['H', kind, [parameter names], label]                            a frappy.rwhandler handler (kind 'cw' CommonWrite-,
+                                                                                    'cr' CommonRead-, 'w' Write-, 'r' ReadHandler)
                    ['M', impl]                                                      plain function (write_/read_/check_/doPoll or a
                                                                                     method overriding a command without decorator)
                    ['R', {'description', 'datatype', properties}]                   a module Property(...)
@@ -133,6 +135,45 @@ def make_impl(impl):
     raise ValueError(f'unknown impl {impl!r}')
 
 
+def make_handler(kind, keys, label):
+    """a frappy.rwhandler handler over the parameters `keys` with a recording function:
+    'cw' CommonWriteHandler: one call for the whole group -> ('write', label, {key: value})
+    'cr' CommonReadHandler:  one call for the whole group -> ('read', label, None)
+    'w'  WriteHandler:       one call per parameter        -> ('write', key, value)
+    'r'  ReadHandler:        one call per parameter        -> ('read', key, None)"""
+    from frappy import rwhandler
+    keys = list(keys)
+    if kind == 'cw':
+        def common_write(self, values, _keys=tuple(keys), _label=label):
+            got = {k: values[k] for k in _keys}
+            drvlog(self).append(['write', _label, repr(got)])
+            self.__dict__.setdefault('drvraw', []).append(('write', _label, got))
+            for k, v in got.items():
+                setattr(self, k, v)
+        func, deco = common_write, rwhandler.CommonWriteHandler(keys)
+    elif kind == 'cr':
+        def common_read(self, _label=label):
+            drvlog(self).append(['read', _label])
+            self.__dict__.setdefault('drvraw', []).append(('read', _label, None))
+        func, deco = common_read, rwhandler.CommonReadHandler(keys)
+    elif kind == 'w':
+        def handler_write(self, pname, value):
+            drvlog(self).append(['write', pname, repr(value)])
+            self.__dict__.setdefault('drvraw', []).append(('write', pname, value))
+            return value
+        func, deco = handler_write, rwhandler.WriteHandler(keys)
+    elif kind == 'r':
+        def handler_read(self, pname):
+            drvlog(self).append(['read', pname])
+            self.__dict__.setdefault('drvraw', []).append(('read', pname, None))
+            return self.parameters[pname].value
+        func, deco = handler_read, rwhandler.ReadHandler(keys)
+    else:
+        raise ValueError(kind)
+    func.__qualname__ = f'generated.{label}.{kind}.{id(func)}'
+    return deco(func)
+
+
 def make_item(item):
     code = item[0]
     if code in ('P', 'L'):
@@ -154,6 +195,8 @@ def make_item(item):
         return Command(**args, **kwds)(make_impl(item[2]))
     if code == 'CO':      # an optional command a subclass may implement
         return Command(optional=True, **dict(item[1]))
+    if code == 'H':
+        return make_handler(item[1], item[2], item[3])
     if code == 'M':
         return make_impl(item[1])
     if code == 'R':
@@ -241,6 +284,22 @@ G_RECORDS = {
         'write_arr': ['M', 'w:arr'],
         'bl': ['P', {'description': 'blob', 'datatype': ['blob', 0, 4], 'readonly': False, 'default': b''}],
         'write_bl': ['M', 'w:bl'],
+        'doPoll': ['M', 'poll'],
+    }},
+    # parameters sharing one write / read method (frappy.rwhandler): p, i, d are written by ONE call, a and b by one function
+    # called per parameter
+    'GW': {'bases': ['Module'], 'body': {
+        'p': ['P', {'description': 'proportional', 'datatype': ['double', {'min': 0, 'max': 100}], 'readonly': False, 'default': 1.0}],
+        'i': ['P', {'description': 'integral', 'datatype': ['double', {'min': 0, 'max': 100}], 'readonly': False, 'default': 1.0}],
+        'd': ['P', {'description': 'differential', 'datatype': ['double', {'min': 0, 'max': 100}], 'readonly': False, 'default': 1.0}],
+        'write_pid': ['H', 'cw', ['p', 'i', 'd'], 'pid'],
+        'read_pid': ['H', 'cr', ['p', 'i', 'd'], 'pid'],
+        'a': ['P', {'description': 'register a', 'datatype': ['int', 0, 50], 'readonly': False, 'default': 0}],
+        'b': ['P', {'description': 'register b', 'datatype': ['int', 0, 50], 'readonly': False, 'default': 0}],
+        'write_ab': ['H', 'w', ['a', 'b'], 'ab'],
+        'read_ab': ['H', 'r', ['a', 'b'], 'ab'],
+        'gain': ['P', {'description': 'gain', 'datatype': ['double', {'min': 0, 'max': 10}], 'readonly': False, 'default': 1.0}],
+        'write_gain': ['M', 'w:gain'],
         'doPoll': ['M', 'poll'],
     }},
     # not polled (enablePoll = False): nothing to poll, but configured values to be written to the hardware
